@@ -174,6 +174,24 @@ class SArr(_np.ndarray):
     def round(self, decimals=0, out=None):
         return NP.round(self, decimals)
 
+    def var(self, axis=None, **kw):
+        if self.dtype != object:
+            return _np.ndarray.var(_np.asarray(self), axis=axis, **kw)
+        if axis is not None:
+            raise EngineError("var(axis=...) on symbolic arrays")
+        items = list(_np.asarray(self).reshape(-1))
+        n = len(items)
+        mean = sum(items[1:], items[0]) / n
+        return sum([(v - mean) * (v - mean) for v in items[1:]], (items[0] - mean) * (items[0] - mean)) / n
+
+    def mean(self, axis=None, **kw):
+        if self.dtype != object:
+            return _np.ndarray.mean(_np.asarray(self), axis=axis, **kw)
+        if axis is not None:
+            raise EngineError("mean(axis=...) on symbolic arrays")
+        items = list(_np.asarray(self).reshape(-1))
+        return sum(items[1:], items[0]) / len(items)
+
     def any(self, axis=None, **kw):
         return NP.any(self, axis=axis)
 
@@ -419,11 +437,26 @@ def len_shim(x):
 # --------------------------------------------------------------------------------------
 
 
+class _LINALG:
+    def __getattr__(self, name):
+        return getattr(_np.linalg, name)
+
+    def norm(self, x, ord=None, axis=None, **k):
+        a = _np.asarray(_to_arr(x))
+        if a.dtype != object:
+            return _np.linalg.norm(a, ord=ord, axis=axis, **k)
+        if ord not in (None, 2) or axis is not None:
+            raise EngineError("linalg.norm variant not modelled")
+        items = list(a.reshape(-1))
+        return sym_sqrt(sum([v * v for v in items[1:]], items[0] * items[0]))
+
+
 class _NP:
     # names that are plain data / types
     _PASS = {"nan", "inf", "pi", "e", "newaxis", "ndarray", "float64", "int64", "number", "integer", "floating",
-             "bool_", "errstate", "linalg", "object_", "int32", "intp", "isscalar", "ndim", "shape", "ndindex", "size",
+             "bool_", "errstate", "object_", "int32", "intp", "isscalar", "ndim", "shape", "ndindex", "size",
              "issubdtype", "dtype", "finfo", "seterr", "random", "testing"}
+    linalg = _LINALG()
 
     def __getattr__(self, name):
         v = getattr(_np, name)
@@ -670,6 +703,8 @@ class _NP:
 
     def argmin(self, x, axis=None):
         a = _np.asarray(_to_arr(x))
+        if _is_boolish_obj(a):
+            return _np.argmin(concretise_mask(a), axis=axis)
         if a.dtype != object:
             return _np.argmin(a, axis=axis)
         if axis is not None:
@@ -683,6 +718,8 @@ class _NP:
 
     def argmax(self, x, axis=None):
         a = _np.asarray(_to_arr(x))
+        if _is_boolish_obj(a):
+            return _np.argmax(concretise_mask(a), axis=axis)
         if a.dtype != object:
             return _np.argmax(a, axis=axis)
         if axis is not None:
